@@ -23,5 +23,11 @@ for d in sorted(glob.glob("/verif/seeded/*/")):
         not_detected_by=[k for k, v in det.items() if v.get("exit") != 1],
         how_checked="tools/seed_detect.sh: patch applied to a scratch worktree, ./check <prop> --tier quick with GTMC_REPO pointing at it (exit 1 + VIOLATION line = detected)",
     )
+    rej = os.path.join(d, "REJECTED.txt")
+    if os.path.exists(rej):
+        meta["kept_as_valid_seed"] = False
+        meta["rejected_because"] = open(rej).read().strip()
+    if a.get("note_by_verifier"):
+        meta["note_by_verifier"] = a["note_by_verifier"]
     json.dump(meta, open(os.path.join(d, "meta.json"), "w"), indent=1)
     print(sid, "detected_by", sorted(meta["detected_by"]), "missed_by", meta["not_detected_by"], "| confirm:", c.get("demo_exit_clean"), c.get("demo_exit_mutant"), (c.get("suite_with_change") or "")[:12])
